@@ -469,7 +469,7 @@ ROUTE_TEXT = {
     "sharedproxy": "second activation's hint replaced by the first activation's hint object (proxies shared)",
     "unresolved": "proxy raised although the name is lexically bound",
 }
-DEVIATION_ROUTES = ["fake", "otherframe", "global", "capglobal", "sharedproxy"]
+DEVIATION_ROUTES = ["fake", "otherframe", "global", "capglobal"]     # sharedproxy was repaired (fix c823ac1)
 
 
 def _model_form(fm):
